@@ -7,7 +7,7 @@ CONSTANTS
   Acts = {"NewVec", "NewTable", "ColView", "Rename", "RenameColumn", "Lookup", "SetAttr", "WriteByName", "Dir"}
   Lens = {1}
   Vals = {0, 1}
-  NameSet = {"-", "a", "b"}
+  NameSet = {"-", "a", "b", "none"}
   MaxDepth = 8
   MaxCols = 2
   Emit = FALSE
